@@ -88,10 +88,12 @@ fn cmd_sim(args: &[String]) -> i32 {
     let name = &args[0];
     if let Some(fam) = name.strip_prefix("family:") {
         let quick = args.get(2).map(|s| s == "quick").unwrap_or(true);
+        let props: Vec<Prop> = args
+            .get(1)
+            .map(|s| s.split(',').filter_map(Prop::parse).collect())
+            .unwrap_or_default();
         for sc in sim::scenarios::family(fam, quick) {
-            let mut a = args.to_vec();
-            a[0] = sc.name.clone();
-            cmd_sim(&a);
+            sim_one(&sc, props.clone());
         }
         return 0;
     }
@@ -102,9 +104,13 @@ fn cmd_sim(args: &[String]) -> i32 {
     let sc = sim::scenarios::by_name(name)
         .or_else(|| sim::scenarios::journal(false).into_iter().find(|s| &s.name == name))
         .expect("unknown scenario");
+    sim_one(&sc, props)
+}
+
+fn sim_one(sc: &sim::scenario::Scenario, props: Vec<Prop>) -> i32 {
     let t = std::time::Instant::now();
     let r = explore(
-        &sc,
+        sc,
         &ExploreOpts {
             props,
             check_panics: true,
@@ -112,7 +118,7 @@ fn cmd_sim(args: &[String]) -> i32 {
             deadline: None,
             audit_every: 200,
             collect_journals: false,
-                check_livelock: false,
+            check_livelock: false,
         },
     );
     println!(
